@@ -529,7 +529,89 @@ func runC13CancelRace(g c13Gate, unit string) CaseOut {
 	return out
 }
 
+// runC13RemoteRelease: a unit that really ran on another node (two real daemons over TCP). After it has finished, the
+// given commands are sent to the submitting node one right after the other; once a release has answered "released" the
+// unit is gone from the submitting node (not listed, directory removed) within a few seconds — whatever followed.
+func runC13RemoteRelease(cmds []string) CaseOut {
+	var out CaseOut
+	out.Nontrivial = true
+	dir, err := os.MkdirTemp(scratchDir(), "c13r-")
+	if err != nil {
+		out.violate("harness:c13r-tmp", "%v", err)
+		return out
+	}
+	defer os.RemoveAll(dir)
+	defer killStrayRunners(dir)
+	dir1, dir2 := filepath.Join(dir, "n1"), filepath.Join(dir, "n2")
+	os.MkdirAll(dir1, 0o700)
+	os.MkdirAll(dir2, 0o700)
+	d2, port, err := startDaemonListening(dir2, "n2", nil)
+	if err != nil {
+		out.violate("harness:c13r-daemon", "n2: %v", err)
+		return out
+	}
+	defer d2.kill()
+	d1, err := startDaemon(dir1, "n1", nil, "--tcp-peer", fmt.Sprintf("address=127.0.0.1:%d", port), "redial=true")
+	if err != nil {
+		out.violate("harness:c13r-daemon", "n1: %v", err)
+		if d1 != nil {
+			d1.kill()
+		}
+		return out
+	}
+	defer d1.kill()
+	if !d1.waitRoute("n2", 15*time.Second) {
+		out.violate("harness:c13r-route", "n1 never learned a route to n2")
+		return out
+	}
+	sub := d1.submit("n2", "cat", []byte("remote\n"), 20*time.Second)
+	if sub.ID == "" {
+		out.violate("harness:c13r-submit", "%+v", sub)
+		return out
+	}
+	id := sub.ID
+	if _, err := d1.waitState(id, 30*time.Second, 2); err != nil {
+		out.violate("harness:c13r-wait", "the remote unit did not succeed: %v", err)
+		return out
+	}
+	unitDir := filepath.Join(dir1, "data", "n1", id)
+	released := false
+	var replies []string
+	for _, c := range cmds {
+		r, _ := d1.ask("work "+c+" "+id, 25*time.Second)
+		replies = append(replies, trunc(r, 60))
+		if strings.Contains(r, "released") && !strings.HasPrefix(r, "ERROR") {
+			released = true
+		}
+	}
+	ctx := fmt.Sprintf("remote unit on n2, commands %v sent back to back (replies %q)", cmds, replies)
+	if released {
+		gone := false
+		for dl := time.Now().Add(10 * time.Second); time.Now().Before(dl); time.Sleep(200 * time.Millisecond) {
+			l, _, err := d1.list(5 * time.Second)
+			_, listed := l[id]
+			_, serr := os.Stat(unitDir)
+			if err == nil && !listed && os.IsNotExist(serr) {
+				gone = true
+				break
+			}
+		}
+		if !gone {
+			l, raw, _ := d1.list(5 * time.Second)
+			_, listed := l[id]
+			_, serr := os.Stat(unitDir)
+			out.violate("unit:known-after-release:remote", "%s: 10 s after a release was answered the unit is still there (listed=%v, directory exists=%v): %s", ctx, listed, serr == nil, trunc(raw, 200))
+		}
+	}
+	out.Outcome = fmt.Sprintf("remote-release %v released=%v", cmds, released)
+	return out
+}
+
 func runC13(w *W) {
+	for _, cmds := range [][]string{{"release"}, {"release", "release"}, {"release", "cancel"}, {"cancel", "release"}, {"release", "release", "release"}, {"release", "force-release"}} {
+		cmds := cmds
+		w.Case(fmt.Sprintf("remote unit that ran on n2: %v", cmds), func() CaseOut { return runC13RemoteRelease(cmds) })
+	}
 	ops := []string{"status", "list", "cancel", "release", "force-release", "results"}
 	maxLen := 2
 	if w.Thorough() {
@@ -603,7 +685,7 @@ func init() {
 		ID:        "C13",
 		Level:     "model_checking",
 		Technique: "exhaustive enumeration of operation sequences on the real daemon with a status-rewrite observer in daemon and runner processes; cross-process orderings of cancel against runner completion enforced by gates at hook points; concurrent AllocateUnit with forced identical random IDs under the cooperative scheduler (context-bounded DFS)",
-		Rule: "sequences: every sequence of <=2 (quick) / <=3 (thorough) commands from {status, list, cancel, release, force-release, results} (each followed by status+list) on a finished-successful, a finished-failed, a running command unit and a pending remote unit, one real daemon per sequence; cancel races: the runner held at {started, final record written} while cancel runs, and cancel held at {before signal, before its status write} while the runner finishes, for three work types; release races: release / force-release of a unit against status, list, cancel and a second release of the same unit as threads of the cooperative scheduler (<=2 preemptions; hook points before and after the directory is removed); allocation: 2 and 3 concurrent AllocateUnit calls whose first random draw is identical, all schedules with <=2 (3 threads quick: 1) preemptions. " +
+		Rule: "sequences: every sequence of <=2 (quick) / <=3 (thorough) commands from {status, list, cancel, release, force-release, results} (each followed by status+list) on a finished-successful, a finished-failed, a running command unit and a pending remote unit, one real daemon per sequence; cancel races: the runner held at {started, final record written} while cancel runs, and cancel held at {before signal, before its status write} while the runner finishes, for three work types; remote units that really ran on a second daemon: 6 sequences of release / cancel / force-release sent back to back (gone within 10 s of a release being answered); release races: release / force-release of a unit against status, list, cancel and a second release of the same unit as threads of the cooperative scheduler (<=2 preemptions; hook points before and after the directory is removed); allocation: 2 and 3 concurrent AllocateUnit calls whose first random draw is identical, all schedules with <=2 (3 threads quick: 1) preemptions. " +
 			"Oracle: every observed status rewrite moves forward (stage order, Succeeded final with constant size, output size not shrinking while running); reported states likewise; release => unknown + directory gone; cancel => command process gone; IDs pairwise distinct. Each case is distinct and non-trivial.",
 		Assumptions: []string{"real-time runs: no oracle depends on an interval shorter than the generous time-outs; a gate that is not reached is counted, not judged", "threads blocked on locks without hook points (activeUnitsLock) are recognised by a 60 ms quiet period"},
 		Run:         runC13,
